@@ -22,7 +22,7 @@ _PROVED = {
  "C03": "Proved (Props/C03.v, for arbitrary filesystems, every world): Lstat/Stat/Readlink/Open/OpenFile(O_RDONLY) through BackupFS are exactly one call of the base, invoke nothing on the backup (trap_api) and no mutating base method, leave baseInfos alone. Mutating operations (Proofs/Transparent.v; 41 statements in Props/C03.v; closed for the generic, the documented and the New/NewWithFS layering): after a successful resolution and backup step the operation is the base's own operation on the resolved name; for covered operations the backup step leaves the base view untouched and the operation equals the direct one on a base showing the same view, or fails with the backup's error leaving the base view unchanged; it changes the base view at most at the named entry (C03_affects_only_named); RemoveAll of an absent path returns nil. Names with symlinked parents, D14/D12/K6 and error classes: twin oracle. ",
  "C04": "Proved (Props/C04.v, 21 theorems and 11 examples, HiddenFS over ANY filesystem): every method on every spelling of a name lexically at/below the location is rejected with the world unchanged; listings never reveal it; no BackupFS operation invokes any method of the underlying or the backup filesystem on a hidden name (C04_universal_seal); operations whose resolved name is at/below it do not succeed and mutate nothing underneath; the location is never backed up into itself. Lexical on the resolved name (D9/D17 recorded). Rollback keeps working for everything outside the location, histories that RemoveAll or Rename a parent of it included: C04_rollback_documented_partial and C04_rollback_new_partial (closed theorems for the HiddenFS-inside-PrefixFS layering and for New/NewWithFS) + examples + oracle. ",
  "C08": "Proved (Props/C08.v, 21 theorems, for arbitrary filesystems and every world incl. faults/crash points): taking a backup never invokes a mutating base method; if the backup of any mutating operation fails the operation returns that failure in exactly the world the failed backup left (fail-stop), Rename for each of its two backups, RemoveAll per entry. Props/C08_faults.v (over the laws + fault laws, closed for the three layerings): under every single-fault plan every covered operation keeps the transaction invariant, and a fault on the backup filesystem during a backup-taking operation yields an error with the base view unchanged; afterwards Rollback restores (C09_faults). Multi-fault plans: enumeration (two faults can break the clean-up of a partial copy: the boundary the proof identified). ",
- "C13": "Proved (Props/C13_content.v, over the laws and closed for the generic layering): from any state satisfying the transaction invariant Rollback returns nil and every path not tracked when it starts holds the same entry afterwards. Proved (Props/C13.v, arbitrary filesystems): every call Rollback makes on either filesystem is on a path tracked when it started (guard_api), on the backup only Lstat/Open/Readlink/Remove. What base.RemoveAll/MkdirAll do inside the method is covered by the oracle (foreign entries survive; every entry not tracked when Rollback starts is unchanged by Rollback, also when the transaction put a symlink to it in the place of a tracked path). ",
+ "C13": "Proved (Props/C13_content.v, over the laws and closed for the three layerings): from any state satisfying the transaction invariant Rollback returns nil and every path not tracked when it starts holds the same entry afterwards. Proved (Props/C13.v, arbitrary filesystems): every call Rollback makes on either filesystem is on a path tracked when it started (guard_api), on the backup only Lstat/Open/Readlink/Remove. What base.RemoveAll/MkdirAll do inside the method is covered by the oracle (foreign entries survive; every entry not tracked when Rollback starts is unchanged by Rollback, also when the transaction put a symlink to it in the place of a tracked path). ",
  "C16": "Proved (Props/C16.v, 37 theorems, concrete model of resolvePathWithInfo over the modelled kernel walk): termination and read-onlyness for every world and name; no fuel exhaustion for any topology within a size bound; under the exclusion of the recorded deviations (D17, K2 - boolean triggers): no symlink among the parents of the result, same entry as the caller's name under the kernel walk (unless the kernel answers ELOOP = recorded finding K8), final component unresolved, missing tail lexical. Relative names (working directory = root) proved as well (C16_relative_*). ",
  "C17": "Proved (Props/C17.v, over the laws): ForceBackup of a resolved non-directory path re-establishes the invariant for the baseline rebased at p, whether it succeeds or fails; after any covered history Rollback returns nil, p is as at the ForceBackup moment, every other path as originally (C17_rollback_after_force_backup). A path that WAS a directory when the transaction began (now absent or a non-directory): Props/C17.v C17_former_directory_*: ForceBackup re-establishes the invariant for the baseline pruned at p; after Rollback p is as at the ForceBackup moment, its former content is not restored, everything outside is as originally. Closed for the three layerings. The two side conditions the proof forced were real defects, D21 and D22, both repaired in the code; the side conditions entry_ok, orig_not_dir_cond and parents_original remain hypotheses of every C17 theorem, the concrete instances included (the laws say nothing about creating below a missing directory). ",
  "C02": "Proved (Props/C02.v): between operations of any covered history every original is intact in the base view or copied at the same backup path and the backup holds nothing else (C02_between_operations_partial); tryBackup never changes the base view. AT EVERY INSTANT (Props/C02_instant.v): with the model's own crash points (the state at instant k = the world in which a run with crash point k halts), every instant of tryBackup, of every covered operation, of every covered history and of Rollback is recoverable: originals intact or exactly copied, the backup holds nothing but copies with at most the one entry being written incomplete; closed for the three layerings (C02_instant_concrete/_documented/_new and the _rollback_ variants). Fault plans and operations outside 'covered' are decided by enumeration. ",
